@@ -357,6 +357,12 @@ def run(chk):
                         packs.append((i, new[PARENT[i.reg(0)]], 4))
                 elif i.mem < 0 and op in ("OR64rr", "OR32rr") and PARENT.get(i.reg(1)) in st and PARENT.get(i.reg(2)) not in st:
                     new[PARENT[i.reg(0)]] = st[PARENT[i.reg(1)]]
+                elif i.mem < 0 and op in ("ADD64rr", "ADD32rr") and (PARENT.get(i.reg(1)) in st) != (PARENT.get(i.reg(2)) in st):
+                    new[PARENT[i.reg(0)]] = st.get(PARENT.get(i.reg(1)), st.get(PARENT.get(i.reg(2))))
+                elif op in ("LEA64r", "LEA32r", "LEA64_32r") and i.memop() and (i.memop()[1] or 1) == 1 and not i.memop()[4] \
+                        and (PARENT.get(i.memop()[0]) in st) != (PARENT.get(i.memop()[2]) in st) and 0 <= (i.memop()[3] or 0) < 64:
+                    mo = i.memop()
+                    new[PARENT[i.reg(0)]] = st.get(PARENT.get(mo[0]), st.get(PARENT.get(mo[2])))
                 elif i.mem < 0 and op in ("MOV64rr", "MOV32rr") and PARENT.get(i.reg(1)) in st:
                     new[PARENT[i.reg(0)]] = st[PARENT[i.reg(1)]]
                 elif m and i.writes_mem_operand() and op in ("MOV32mr", "MOV64mr"):
